@@ -232,6 +232,16 @@ def gen_shape(rng, kinds=("rect", "circ", "poly"), scale=1.0, centered=True, off
         return {"t": "rect", "l": rng.uniform(1.0, 5.0) * scale, "w": rng.uniform(0.6, 2.2) * scale}
     if t == "circ":
         return {"t": "circ", "r": rng.uniform(0.3, 2.0) * scale}
+    if t == "poly" and rng.chance(0.25):
+        # a non-convex outline (U / L shape: a vehicle with a trailer turning, a building with a yard); for a thin
+        # U the centroid lies in the notch, outside the polygon itself
+        a, b = rng.uniform(1.5, 3.5) * scale, rng.uniform(1.5, 3.5) * scale
+        w = rng.uniform(0.25, 0.6) * scale
+        if rng.chance(0.6):
+            v = [[-a, -b], [a, -b], [a, b], [a - w, b], [a - w, -b + w], [-a + w, -b + w], [-a + w, b], [-a, b]]
+        else:
+            v = [[-a, -b], [a, -b], [a, -b + w], [-a + w, -b + w], [-a + w, b], [-a, b]]
+        return {"t": "poly", "v": v}
     if t == "poly":
         n = rng.randint(3, 6)
         r = rng.uniform(0.8, 2.5) * scale
@@ -241,12 +251,20 @@ def gen_shape(rng, kinds=("rect", "circ", "poly"), scale=1.0, centered=True, off
         return {"t": "poly", "v": [[r * rng.uniform(0.7, 1.0) * math.cos(a), r * rng.uniform(0.7, 1.0) * math.sin(a)]
                                    for a in angs]}
     if t == "group":
-        return {"t": "group", "shapes": [gen_shape(rng, ("rect", "circ", "poly"), scale) for _ in range(rng.randint(1, 3))]}
+        shapes = [gen_shape(rng, ("rect", "circ", "poly"), scale) for _ in range(rng.randint(1, 3))]
+        if len(shapes) > 1 and rng.chance(0.5):
+            # members that lie apart from each other (a convoy, scattered debris): what one member is near to says
+            # nothing about the others
+            shapes = [shapes[0]] + [_shift(sh, rng.uniform(-9.0, 9.0) * scale, rng.uniform(-9.0, 9.0) * scale)
+                                    for sh in shapes[1:]]
+            if rng.chance(0.5):
+                shapes.reverse()
+        return {"t": "group", "shapes": shapes}
     raise ValueError(t)
 
 
 def gen_obstacle(rng, oid, net, role=None, horizon=None, shape_kinds=("rect", "circ", "poly"), t0=None,
-                 state_cls=None, on_road=0.8, p_stand=0.0, interval_steps=0.0, offset_p=0.0):
+                 state_cls=None, on_road=0.8, p_stand=0.0, interval_steps=0.0, offset_p=0.0, shuffle_occ=0.0):
     role = role or rng.weighted(["static", "dynamic", "dynamic_nopred", "dynamic_set", "env", "phantom"],
                                 [3, 4, 1, 1, 1, 1])
     lanelets = net["lanelets"]
@@ -270,6 +288,8 @@ def gen_obstacle(rng, oid, net, role=None, horizon=None, shape_kinds=("rect", "c
         if interval_steps > 0.0 and rng.chance(interval_steps):
             for k, o in enumerate(occ):  # occupancies valid for time intervals [t, t+1], [t+2, t+3], ...
                 o["t"] = {"iv": [t0 + 2 * k, t0 + 2 * k + 1]}
+        if shuffle_occ > 0.0 and len(occ) > 1 and rng.chance(shuffle_occ):
+            rng.shuffle(occ)  # the occupancies of a set-based prediction need not be listed chronologically
         return {"id": oid, "role": "phantom", "pred": {"kind": "set", "t0": t0, "occ": occ}}
     shape = gen_shape(rng, shape_kinds, offset_p=offset_p)
     init = {"t": t0, "pos": pos, "ori": ori, "vel": rng.uniform(0, 12), "acc": rng.uniform(-1, 1),
@@ -304,6 +324,8 @@ def gen_obstacle(rng, oid, net, role=None, horizon=None, shape_kinds=("rect", "c
         if interval_steps > 0.0 and rng.chance(interval_steps):
             for k, o in enumerate(occ):
                 o["t"] = {"iv": [t0 + 1 + 2 * k, t0 + 2 + 2 * k]}
+        if shuffle_occ > 0.0 and len(occ) > 1 and rng.chance(shuffle_occ):
+            rng.shuffle(occ)
         ob["pred"] = {"kind": "set", "t0": t0 + 1, "occ": occ}
         return ob
     cls = state_cls or rng.weighted(["ks", "st", "custom"], [5, 2, 1])
